@@ -3095,10 +3095,6 @@ func (o *Operand) Decode(decoder *Decoder) error {
 	}
 	o.GasLimit = Gas(gasLimit)
 
-	if err = o.GasLimit.Decode(decoder); err != nil {
-		return err
-	}
-
 	if err = o.Result.Decode(decoder); err != nil {
 		return err
 	}
